@@ -2,7 +2,7 @@
 package main
 
 import (
-	"crypto/sha1"
+	"encoding/json"
 	"fmt"
 	"os"
 	"sort"
@@ -32,11 +32,12 @@ type stepRec struct {
 }
 
 type history struct {
-	Index   int       `json:"history"`
-	Kind    string    `json:"kind"` // scripted:<name> | random
-	CacheOn bool      `json:"cache_on"`
-	LogPath string    `json:"log_path"`
-	Steps   []stepRec `json:"steps"`
+	Index     int       `json:"history"`
+	Kind      string    `json:"kind"` // scripted:<name> | random
+	CacheOn   bool      `json:"cache_on"`
+	LogPath   string    `json:"log_path"`
+	Steps     []stepRec `json:"steps"`
+	FreshRuns int       `json:"fresh_runs"`
 }
 
 // a plan yields the successive states of the tree; it is either scripted or random
@@ -48,47 +49,85 @@ type plan struct {
 	steps   int
 }
 
+// at most this many plz processes at a time, over all histories
+var plzSem = make(chan struct{}, 12)
+
+func runPlz(r *e2e.Repo, args ...string) e2e.Result {
+	plzSem <- struct{}{}
+	defer func() { <-plzSem }()
+	return r.Run(120*time.Second, args...)
+}
+
+type freshRes struct {
+	out  map[string]e2e.C11Outcome
+	exit int
+}
+
 func runPlan(idx int, base string, p plan) history {
 	repo := e2e.NewRepo(base, "repo")
 	if p.cacheOn {
 		repo.CacheDir = base + "/cache"
 	}
 	h := history{Index: idx, Kind: p.kind, CacheOn: p.cacheOn, LogPath: repo.LogPath}
+	// the successive trees do not depend on what plz does, so they are computed first ...
 	cur := p.initial
 	var past []*e2e.C11Spec
-	freshMemo := map[string]stepRec{}
+	var edits []e2e.Edit
+	var rms []bool
 	for i := 0; i <= p.steps; i++ {
 		ed, rm := e2e.Edit{Kind: "initial"}, false
 		if i > 0 {
 			cur, ed, rm = p.next(i, cur.Clone(), past)
 		}
 		past = append(past, cur.Clone())
-		if rm {
+		edits, rms = append(edits, ed), append(rms, rm)
+	}
+	// ... and the fresh run of every distinct tree (a clean copy: no plz-out, no cache) goes on concurrently
+	fresh := map[string]*freshRes{}
+	keyOf := func(s *e2e.C11Spec) string {
+		js, _ := json.Marshal(s)
+		return string(js)
+	}
+	var wg sync.WaitGroup
+	for i, s := range past {
+		k := keyOf(s)
+		if _, ok := fresh[k]; ok {
+			continue
+		}
+		fr := &freshRes{}
+		fresh[k] = fr
+		wg.Add(1)
+		go func(i int, s *e2e.C11Spec) {
+			defer wg.Done()
+			clean := e2e.NewRepo(base, fmt.Sprintf("clean%d", i))
+			clean.Write(s.Spec(clean.LogPath))
+			res := runPlz(clean, "test")
+			fr.out, fr.exit = clean.C11Results(s, res), res.Exit
+			os.RemoveAll(clean.Dir)
+		}(i, s)
+	}
+	for i, s := range past {
+		if rms[i] {
 			repo.RemovePlzOut()
 		}
-		spec := cur.Spec(repo.LogPath)
-		repo.Write(spec)
-		res := repo.Run(90*time.Second, "test")
-		st := stepRec{Index: i, Edit: ed, Rm: rm, Spec: cur.Clone(), Exit: res.Exit, Executed: res.Executed, NKeys: map[string]int{}}
-		st.Inc = repo.C11Results(cur, res)
-		for _, t := range cur.Tests {
+		repo.Write(s.Spec(repo.LogPath))
+		res := runPlz(repo, "test")
+		st := stepRec{Index: i, Edit: edits[i], Rm: rms[i], Spec: s, Exit: res.Exit, Executed: res.Executed, NKeys: map[string]int{}}
+		st.Inc = repo.C11Results(s, res)
+		for _, t := range s.Tests {
 			st.NKeys[t.Name] = repo.C11CacheKeys(t)
 		}
 		if res.Exit != 0 {
 			st.Stderr = tailStr(res.Stderr+res.Stdout, 1200)
 		}
-		// the fresh run of the same tree: a clean copy without plz-out and without a cache
-		memoKey := fmt.Sprintf("%x", sha1.Sum([]byte(fmt.Sprint(spec.Pkgs[e2e.C11Pkg].Files))))
-		if m, ok := freshMemo[memoKey]; ok {
-			st.Fresh, st.Clean = m.Fresh, m.Clean
-		} else {
-			clean := repo.CleanCopy(base, "clean", spec)
-			cres := clean.Run(90*time.Second, "test")
-			st.Fresh, st.Clean = clean.C11Results(cur, cres), cres.Exit
-			freshMemo[memoKey] = st
-		}
 		h.Steps = append(h.Steps, st)
 	}
+	wg.Wait()
+	for i := range h.Steps {
+		fr := fresh[keyOf(past[i])]
+		h.Steps[i].Fresh, h.Steps[i].Clean = fr.out, fr.exit
+	}
+	h.FreshRuns = len(fresh)
 	return h
 }
 
@@ -350,7 +389,7 @@ func tst(name, op, arg string, data ...string) *e2e.C11Test {
 
 func setFile(f, c string) func(*e2e.C11Spec) { return func(s *e2e.C11Spec) { s.Files[f] = c } }
 
-func scriptedPlans() []plan {
+func scriptedPlans(thorough bool) []plan {
 	var ps []plan
 	for _, cache := range []bool{false, true} {
 		// pass -> fail -> fail again -> pass -> unrelated edit -> plz-out deleted
@@ -362,6 +401,9 @@ func scriptedPlans() []plan {
 			{kind: "unrelated", f: setFile("u.txt", "other\n")},
 			{kind: "rm-plz-out", rm: true},
 		}))
+		if !cache && !thorough {
+			continue
+		}
 		// data A -> B -> A with the binary reused; then binary A -> B -> A
 		ps = append(ps, scripted("aba", cache, []*e2e.C11Test{tst("t0", "passif", "ok", "a.txt"), tst("t1", "binok", "ok")}, []scriptStep{
 			{kind: "data-content", f: setFile("a.txt", "yes ok\n")},
@@ -540,9 +582,9 @@ func main() {
 			"directory cache; after every edit the real `plz test` is run and compared, per target, with `plz test` on a clean copy of the same tree. " +
 			"distinct = distinct (history, step, target); non-trivial = a step after the first")
 		var plans []plan
-		plans = scriptedPlans()
-		nrandom := c.Scale(7, 150)
-		steps := c.Scale(5, 8)
+		plans = scriptedPlans(c.Thor)
+		nrandom := c.Scale(4, 150)
+		steps := c.Scale(4, 8)
 		for i := 0; i < nrandom; i++ {
 			r := c.Rng.Fork()
 			plans = append(plans, randomPlan(r, steps, i%2 == 0))
@@ -551,13 +593,10 @@ func main() {
 		defer os.RemoveAll(base)
 		hs := make([]history, len(plans))
 		var wg sync.WaitGroup
-		sem := make(chan struct{}, 8)
 		for i := range plans {
 			wg.Add(1)
-			sem <- struct{}{}
 			go func(i int) {
 				defer wg.Done()
-				defer func() { <-sem }()
 				dir := fmt.Sprintf("%s/h%d", base, i)
 				os.MkdirAll(dir, 0o755)
 				hs[i] = runPlan(i, dir, plans[i])
@@ -574,8 +613,8 @@ func main() {
 			for _, t := range h.Steps[0].Spec.Tests {
 				names[t.Name] = true
 			}
+			invocations += len(h.Steps) + h.FreshRuns
 			for _, st := range h.Steps {
-				invocations += 2
 				c.Hist("edit", st.Edit.Kind)
 				for name := range names {
 					found := false
@@ -658,16 +697,20 @@ func main() {
 			// exit status of the whole invocation
 			for i, st := range h.Steps {
 				c.Oracle()
-				all := true
+				all, allFresh := true, true
 				for _, o := range st.Inc {
 					all = all && o.Passed
 				}
-				if (st.Exit == 0) != all || (st.Exit == 0) != (st.Clean == 0) {
-					c.Fail("exit-status", fmt.Sprintf("history %d step %d: exit %d (all passed: %v), clean exit %d", h.Index, i, st.Exit, all, st.Clean),
+				for _, o := range st.Fresh {
+					allFresh = allFresh && o.Passed
+				}
+				// the exit status must agree with the per-target report (whether that report is right is judged per target above)
+				if (st.Exit == 0) != all || (st.Clean == 0) != allFresh {
+					c.Fail("exit-status", fmt.Sprintf("history %d step %d: exit %d (all reported passed: %v), fresh exit %d (all passed: %v)", h.Index, i, st.Exit, all, st.Clean, allFresh),
 						map[string]any{"history": h.Index, "step": i, "spec": st.Spec, "incremental": st.Inc, "fresh": st.Fresh, "stderr": st.Stderr})
 				}
 			}
 		}
-		c.Note("%d histories (%d scripted), %d plz invocations at most (fresh runs of a tree seen before in the same history are reused)", len(hs), len(scriptedPlans()), invocations)
+		c.Note("%d histories (%d scripted), %d plz invocations (one fresh run per distinct tree of a history)", len(hs), len(scriptedPlans(c.Thor)), invocations)
 	})
 }
